@@ -184,11 +184,14 @@ def check_add_candle(repo, rep):
 def check_add_multiple(repo, rep):
     rid = "C20-R2b"
     rep.rule(rid, "CandlesState.add_multiple_1m_candles: empty / newer -> append the chunk; chunk overlapping the stored tail -> "
-                  "overwrite the overlap and keep timestamps strictly increasing without duplicates")
+                  "overwrite the overlap and keep timestamps strictly increasing without duplicates; a chunk of older candles that "
+                  "are all stored already replaces them")
     t0 = 1_600_000_000_000 // MIN * MIN
     # (name, stored rows, chunk first minute, chunk length)
     cases = [("empty", 0, 0, 3), ("newer", 3, 3, 3), ("same-chunk-again", 3, 0, 3), ("tail-overlap-full", 4, 2, 2),
-             ("tail-overlap-partial", 4, 3, 3), ("overlap-longer-than-store", 2, 1, 3), ("overlap-whole-store", 2, 0, 4)]
+             ("tail-overlap-partial", 4, 3, 3), ("overlap-longer-than-store", 2, 1, 3), ("overlap-whole-store", 2, 0, 4),
+             # older candles that are all stored already (the chunk ends before the last stored candle): replaced, as add_candle does
+             ("inner-chunk", 6, 2, 2), ("inner-single", 6, 4, 1), ("head-chunk", 6, 0, 3), ("inner-up-to-the-last-but-one", 6, 3, 2)]
     for name, n, first, m in cases:
         def mk(dec):
             it = Interp(repo, stubs=W.base_stubs(), decisions=dec)
